@@ -3,11 +3,13 @@ Open Scope Q_scope.
 (* One regularizer call: which regularizer (0 lattice Laplacian, 1 lattice
    torsion, 2/3/4 PWL Laplacian / Hessian / wrinkle), lattice sizes (lattice
    only), units, the amounts as given to the constructor (PWL: Scalar only),
-   is_cyclic (PWL only), the kernel as a (rows, units) matrix and the value
-   returned by the implementation. *)
+   is_cyclic (PWL only), the kernel as a (rows, units) matrix, the value
+   returned by the implementation and the relative tolerance of the comparison
+   (tol = 1e-9 for float64 runs, tol32 = 1e-5 for float32 runs). *)
 Record case := mk { c_kind : nat; c_sizes : list nat; c_units : nat; c_l1 : amount; c_l2 : amount;
-                    c_cyclic : bool; c_kernel : list (list Q); c_out : Q }.
+                    c_cyclic : bool; c_kernel : list (list Q); c_out : Q; c_tol : Q }.
 Definition tol : Q := 1 # 1000000000.
+Definition tol32 : Q := 1 # 100000.
 Definition scalar_of (a : amount) : Q := match a with Scalar q => q | PerDim _ => 0 end.
 
 (* code-shaped model *)
@@ -33,4 +35,5 @@ Definition documented (c : case) : Q :=
   | 3%nat => doc_pwl_hessian l1 l2 (c_cyclic c) (c_units c) (c_kernel c)
   | _ => if (length (c_kernel c) <? 3)%nat then 0 else doc_pwl_wrinkle l1 l2 (c_cyclic c) (c_units c) (c_kernel c)
   end.
-Definition check (c : case) : bool := qclose tol (model c) (c_out c) && qclose tol (documented c) (c_out c).
+Definition check (c : case) : bool :=
+  qclose (c_tol c) (model c) (c_out c) && qclose (c_tol c) (documented c) (c_out c).
